@@ -411,6 +411,17 @@ let run_stmt (b : backend) (s : Sexp.t) : string =
     | _ -> render b (subquery s)
   with Exit -> "PANIC"
 
+(* fully parenthesised rendering: same renderer, tables that never drop parentheses *)
+let full_tables (b : backend) : etables =
+  let t = tables_of false b in
+  { t with t_drop_paren = (fun _ _ -> false); t_lassoc = (fun _ -> false) }
+let run_expr_full (b : backend) (s : Sexp.t) : string =
+  try
+    let q = QSelect (build_select [SCSelExpr (SelExpr (expr s, None, None))]) in
+    let sc = rquery is_alpha_rust b (full_tables b) fuel q in
+    (match emit_inline ftext b sc with Ok inl -> hex_of_str inl | Panic -> "PANIC")
+  with Exit -> "PANIC"
+
 let run_entry (b : backend) (s : Sexp.t) : string =
   (* the model is one pure function: every entry point is the same rendering *)
   try
